@@ -100,6 +100,8 @@ func (s *Subscription) delete(ctx context.Context) error {
 	switch {
 	case err != nil:
 		return err
+	case len(res.Results) == 0:
+		return ua.StatusBadUnexpectedError
 	case res.Results[0] == ua.StatusOK:
 		s.itemsMu.Lock()
 		s.items = make(map[uint32]*monitoredItem)
@@ -162,6 +164,9 @@ func (s *Subscription) Monitor(ctx context.Context, ts ua.TimestampsToReturn, it
 
 	if err != nil {
 		return nil, err
+	}
+	if len(res.Results) != len(items) {
+		return nil, ua.StatusBadUnexpectedError
 	}
 
 	// store monitored items
@@ -238,6 +243,9 @@ func (s *Subscription) ModifyMonitoredItems(ctx context.Context, ts ua.Timestamp
 	})
 	if err != nil {
 		return nil, err
+	}
+	if len(res.Results) != len(items) {
+		return nil, ua.StatusBadUnexpectedError
 	}
 
 	// update monitored items
